@@ -10,6 +10,8 @@ R3  the drain loop wakes every waiter (shape, shared with C02.R4).
 R4  "wait returns non-zero only once its deadline has passed": nsync_counter_wait goes through nsync_wait_n, which takes every non-zero result
     of the timed semaphore wait for an expired deadline; that result is non-zero only where the kernel wait timed out and the re-read clock
     agrees (= C12.R3, judged here for the counter's contract).
+R5  "a wait that starts after zero does not block": counter_enqueue refuses the record when the value is already zero, so nsync_wait_n must poll
+    the ready times again after registering and before its first sleep (= C11.R3).
 Linearizability of the returned values over histories is not decided."""
 from .. import util, ir as IR, objmodel, wakeshape
 from ..bounds import _guards, _norm_cmp
@@ -126,6 +128,9 @@ def run(ctx, rep):
     from . import C12
     rep.rule('C10.R4', 'the timed semaphore wait under nsync_counter_wait reports non-zero only for a kernel timeout confirmed by the clock')
     C12.check_timeout_guards(mod, ctx.probe, rep, 'C10.R4')
+    from .C11 import check_waitn_sleep
+    rep.rule('C10.R5', 'a wait on the counter through nsync_wait_n sleeps only on ready times polled after its registration (a counter that reached zero meanwhile refuses the record)')
+    check_waitn_sleep(mod, rep, 'C10.R5')
     rep.floor('C10.R1', 3)
     rep.floor('C10.R2', 8)
     rep.floor('C10.R3', 1)
